@@ -165,6 +165,31 @@ def conc(m, iv, what):
     raise Unsupported('non-integer ' + what)
 
 
+def sym_window(m, arr, start, end):
+    """&table[start..end] with a SYMBOLIC start and a concrete length, into a table of concrete contents: the window's elements
+    are if-then-else chains over the table (read-only copy)"""
+    ln = z3.simplify(end.z() - start.z())
+    if not z3.is_bv_value(ln):
+        raise Unsupported('window of symbolic length into a table')
+    ln = ln.as_long()
+    n = arr.n
+    if n > 1024 or ln > 16:
+        raise Unsupported('symbolic window into a table of %d elements' % n)
+    items = [arr.get(i) for i in range(n)]
+    if any(x.sym() for x in items):
+        raise Unsupported('symbolic window into a table with symbolic contents')
+    if not m.branch_bool(mk_bool(z3.And(z3.ULE(start.z(), end.z()), z3.ULE(end.z(), n)))):
+        raise Panic('range end index out of range for slice of length %d (symbolic window)' % n, 'index')
+    ty = items[0].ty
+    out = {}
+    for j in range(ln):
+        e = z3.BitVecVal(items[n - 1].v, BITS[ty])
+        for k in range(n - 1 - j, -1, -1):
+            e = z3.If(start.z() == k, z3.BitVecVal(items[k + j].v, BITS[ty]), e)
+        out[j] = mk_int(e, ty)
+    return SliceRef(Arr(ln, I(0, ty), out), 0, ln)
+
+
 def install_models(P):
     M = P.model
 
@@ -195,6 +220,8 @@ def install_models(P):
         arr = _load(a[0])
         rng = a[1]
         kind = mm.group(1)
+        if kind == 'Range' and isinstance(rng[0], I) and rng[0].sym() and 'Mut' not in mm.string and getattr(P, 'allow_sym_window', False):
+            return sym_window(m, arr, rng[0], rng[1])     # off by default: with wide integers the resulting queries ran for hours
         if kind == 'RangeFrom':
             st, en = conc(m, rng[0], 'range start'), arr.n
         elif kind == 'RangeTo':
